@@ -124,6 +124,19 @@ func RunC02(c *Ctx) {
 		}
 		CheckC02(c, entry, input)
 	})
+	nearMissWorkload(c, func(entry, input string) { CheckC02(c, entry, input) })
+	for i, cc := range c.Corpus() {
+		if cc.Bad || !c.Mine(i) {
+			continue
+		}
+		gen.SystematicEdits(cc.Text, func(m string) { CheckC02(c, cc.Entries()[0], m) })
+	}
+	for i, sf := range qualifiedSpecialForms() {
+		if c.Mine(i) {
+			CheckC02(c, "expr", sf)
+			CheckC02(c, "statement", "SELECT "+sf+" FROM t")
+		}
+	}
 }
 
 // ---------------------------------------------------------------------------
